@@ -157,6 +157,8 @@ def scope_cases(rng, n, want):
                    cfg('a:1', expand='u:1'), cfg('a', nostab=True), cfg('a:1 u:1')]
         if 'a:2' in specs:
             configs += [cfg('a:2', translate=tr), cfg('a:1 a:2'), cfg('x:1 a:2'), cfg('a:*', nostab=True)]
+        if 'x:2' in specs:
+            configs += [cfg('a:1 x:1 x:2'), cfg('a:1 x:2'), cfg('x:*', nostab=True)]
         perturb = [['remove', 'x:1', 'some'], ['remove', 'u:1', 'some'], ['add', 'x:1', 'some'],
                    ['remove', 'a:1', 'some'], ['add', 'u:1', 'some'], ['add', 'a:1', 'some']]
         if 'a:2' in specs:
@@ -199,9 +201,9 @@ def c04(tier: str) -> int:
     v.add_model('MC_Scope (every result of a restricted wordnet lies in S; insensitive to outside lexicons)',
                 tlc_model('MC_World', 'MC_Scope.cfg'))
     rng = random.Random(seed() + 4)
-    cases = scope_cases(rng, 1000 if thorough else 120, ['rel'])
+    cases = scope_cases(rng, 1000 if thorough else 120, ['rel', 'exp'])
     recs = run_cases(cases)
-    jrecs = to_records(recs, ['ctor', 'scope'])
+    jrecs = to_records(recs, ['ctor', 'scope', 'exp'])
     jd = tlc_judge('Judge_Query', jrecs, cfg='Judge.cfg', shards=NCPU)
     v.add_judgement('Judge_Query (scope)', jd, {x['id']: x for x in jrecs}, nontrivial=len(cases))
     pairs, n = stability_pairs(recs)
